@@ -18,7 +18,7 @@ func init() {
 		Explanation: "Same linear bounds analysis as C07 over every xprotocol decoder and matcher, with the obligations of containment: " +
 			"(B1) no index/slice/binary read on peer bytes outside the guarded length (against len, not cap); (B4) every allocation whose size depends on a wire length field (make([]byte,n), GetIoBuffer(n), NewIoBuffer(n)) is dominated by the proof that n bytes have arrived; " +
 			"(B5) decoders contain no panic call, and every call from a decoder into a parser known to panic on corrupt input (mosn.io/pkg/header.DecodeHeader, dubbo-go-hessian2 Decoder, thrift readers, TarsGo codec readers) happens under a deferred recover that dominates the call (in the function or at every call site of it); the connection's read/write loops run under GoWithRecover whose handler closes the connection; worker-pool tasks run under recover; " +
-			"(B6) in Dispatch every decode error reaches handleError, which ends in an error reply on that stream or in closing that connection. (B7) the HTTP/2 frame reader obligations of C07.B2h, which also bound the work and memory a peer can cause with one header block. (B8) the bounds engine on the HPACK decoder (readVarInt, readString, parse*, Write) and, for every conversion of a uint64 to a signed or narrower basic type in the decoder, a dominating guard that bounds the value by a constant or by a value converted from the target type.",
+			"(B6) in Dispatch every decode error reaches handleError, which ends in an error reply on that stream or in closing that connection. (B7) the HTTP/2 frame reader obligations of C07.B2h, which also bound the work and memory a peer can cause with one header block. (B8) the bounds engine on the HPACK decoder (readVarInt, readString, parse*, Write) and, for every conversion of a uint64 to a signed or narrower basic type in the decoder, a dominating guard that bounds the value by a constant or by a value converted from the target type. (B9) the C07.B2 drain obligations evaluated as clauses of this property: Drain(n) with n <= Len (IoBuffer.Drain is a silent no-op otherwise) and n equal to the guarded frame length, so Dispatch cannot re-decode the same frame for ever.",
 		Run: runC08,
 	})
 }
@@ -28,6 +28,7 @@ func runC08(c *Ctx) {
 	c.Rule("C08.B4", "peer-sized allocations only after the announced bytes have arrived", 6)
 	c.Rule("C08.B5", "no panic in decoders; third-party parsers only under recover; IO loops and workers under recover", 12)
 	c.Rule("C08.B6", "decode failure is local: error reply on the stream or close of the connection", 4)
+	c.Rule("C08.B9", "a decoder that returns a frame consumes exactly that frame: Drain amount <= Len and equal to the guarded frame length (no re-decode loop)", 20)
 	c.Rule("C08.B8", "HPACK decoder: accesses within the received bytes; peer-controlled 64-bit integers bounded before narrowing or sign-changing conversions", 2)
 	c.Rule("C08.B7", "HTTP/2 frame reader: bounded accesses, re-read loops make progress (no unbounded re-parse of one frame), all-or-nothing consumption", 5)
 	c.Assumptions = append(c.Assumptions,
@@ -45,6 +46,10 @@ func runC08(c *Ctx) {
 	br.runB1("C08.B1")
 	br.runB4()
 	br.runB5()
+	// a decoder that returns a frame consumes it: Drain amount within Len (Drain is a silent no-op otherwise: the same frame
+	// is decoded again without end) and equal to the guarded frame length - the C07.B2 obligations as clauses of "never
+	// loops forever"
+	br.runB2(decodes, "C08.B9")
 	c08Loops(c)
 	c08Dispatch(c)
 	runC07H2(c, "C08.B1", "C08.B7")
